@@ -2,13 +2,14 @@ package main
 
 import (
 	"fmt"
-	"regexp"
-	"strconv"
 	"go/constant"
 	"go/token"
 	"go/types"
+	"regexp"
 	"sort"
+	"strconv"
 	"strings"
+	"unicode"
 
 	"golang.org/x/tools/go/ssa"
 )
@@ -26,36 +27,38 @@ type constMap struct {
 }
 
 type aeCtx struct {
-	p      *Prog
-	pools  map[string][]constant.Value
-	terms  map[string]*termInfo
-	cmaps  map[*ssa.Global]*constMap
-	loops  map[*ssa.Function][]*loop
-	lsum   map[string]*loopSummary
-	assumed map[string]string // relation atoms that are assumptions (out-of-fragment stages): key -> why
-	steps  int
-	stepLimit int
-	orderedConst map[string]bool // term is compared by order (not just equality) with constants
-	stageMode  bool
-	noStage    map[*ssa.Function]bool  // comparators whose operands are also read directly by the caller: inlined
-	directRead map[string]bool          // term keys demanded directly by evaluated code
-	stageBases map[string][]*ssa.Function // operand key -> stages summarised over it
-	stages     map[*ssa.Function]*stageInfo // shared cache: callee comparators proven total preorders
-	stagesUsed map[string]bool
-	opaqueFns  map[*ssa.Function]string
-	fdom       map[fieldOrigin]*fieldDomain
-	prodEx     map[*ssa.Function][]string
-	originOf   map[string]fieldOrigin
-	depIndex   map[string][]string
-	depIndexN  int
-	scope      func(w *world) bool // property-level scope: worlds outside it carry no obligation
-	compareHook *ssa.Function      // tabulation: calls to this function yield an opaque sign term
+	p              *Prog
+	pools          map[string][]constant.Value
+	terms          map[string]*termInfo
+	cmaps          map[*ssa.Global]*constMap
+	loops          map[*ssa.Function][]*loop
+	lsum           map[string]*loopSummary
+	assumed        map[string]string // relation atoms that are assumptions (out-of-fragment stages): key -> why
+	steps          int
+	stepLimit      int
+	orderedConst   map[string]bool // term is compared by order (not just equality) with constants
+	stageMode      bool
+	allowFirst     bool                         // model "i == 0" inside a zip loop as a position class (used by C14's queries only)
+	noStage        map[*ssa.Function]bool       // comparators whose operands are also read directly by the caller: inlined
+	directRead     map[string]bool              // term keys demanded directly by evaluated code
+	stageBases     map[string][]*ssa.Function   // operand key -> stages summarised over it
+	stages         map[*ssa.Function]*stageInfo // shared cache: callee comparators proven total preorders
+	stagesUsed     map[string]bool
+	opaqueFns      map[*ssa.Function]string
+	opaqueAt       map[string]string // callee + operand keys -> reason: opaque for these operands only
+	fdom           map[fieldOrigin]*fieldDomain
+	prodEx         map[*ssa.Function][]string
+	originOf       map[string]fieldOrigin
+	depIndex       map[string][]string
+	depIndexN      int
+	scope          func(w *world) bool // property-level scope: worlds outside it carry no obligation
+	compareHook    *ssa.Function       // tabulation: calls to this function yield an opaque sign term
 	allowCrossTerm bool
-	filter func(w *world) bool // query mode: only worlds accepted by the filter are explored
+	filter         func(w *world) bool // query mode: only worlds accepted by the filter are explored
 }
 
 func newAECtx(p *Prog) *aeCtx {
-	c := &aeCtx{p: p, pools: map[string][]constant.Value{}, terms: map[string]*termInfo{}, cmaps: map[*ssa.Global]*constMap{}, loops: map[*ssa.Function][]*loop{}, lsum: map[string]*loopSummary{}, assumed: map[string]string{}, stepLimit: 400_000_000, orderedConst: map[string]bool{}, stagesUsed: map[string]bool{}, opaqueFns: map[*ssa.Function]string{}, fdom: map[fieldOrigin]*fieldDomain{}, prodEx: map[*ssa.Function][]string{}, originOf: map[string]fieldOrigin{}}
+	c := &aeCtx{p: p, pools: map[string][]constant.Value{}, terms: map[string]*termInfo{}, cmaps: map[*ssa.Global]*constMap{}, loops: map[*ssa.Function][]*loop{}, lsum: map[string]*loopSummary{}, assumed: map[string]string{}, stepLimit: 400_000_000, orderedConst: map[string]bool{}, stagesUsed: map[string]bool{}, opaqueFns: map[*ssa.Function]string{}, opaqueAt: map[string]string{}, fdom: map[fieldOrigin]*fieldDomain{}, prodEx: map[*ssa.Function][]string{}, originOf: map[string]fieldOrigin{}}
 	if p.aeShared == nil {
 		c.collectConstMaps()
 		p.aeShared = &aeShared{cmaps: c.cmaps, fdom: c.fdom, prodEx: c.prodEx}
@@ -125,14 +128,15 @@ type aeRun struct {
 	ind   [2]int
 	depth int
 	// loop analysis
-	target     *loop // loop whose generic iteration is analysed (nil: normal mode)
-	targetFn   *ssa.Function
-	inIter     bool
-	iterFrame  *frame
-	outcome    *iterOutcome
-	eqOverride map[string]bool
+	target      *loop // loop whose generic iteration is analysed (nil: normal mode)
+	targetFn    *ssa.Function
+	inIter      bool
+	inTail      bool // executing the code after the analysed loop, reached from its guard at the generic position
+	iterFrame   *frame
+	outcome     *iterOutcome
+	eqOverride  map[string]bool
 	usedAssumed map[string]bool
-	zUsed      []string
+	zUsed       []string
 }
 
 type mapRef struct{ g *ssa.Global }
@@ -167,7 +171,7 @@ func (r *aeRun) noteOrigin(key string, t types.Type, f int) {
 		t = pt.Elem()
 	}
 	if n, ok := t.(*types.Named); ok {
-		r.ctx.originOf[key] = fieldOrigin{n, f}
+		r.ctx.originOf[key] = fieldOrigin{t: n, f: f}
 	}
 }
 
@@ -248,11 +252,17 @@ func (r *aeRun) noteDirect(key string) {
 		return
 	}
 	r.ctx.directRead[key] = true
-	if fns := r.ctx.stageBases[key]; len(fns) > 0 {
-		for _, f := range fns {
-			r.ctx.noStage[f] = true
+	hit := false
+	for b, fns := range r.ctx.stageBases {
+		if key == b || strings.HasPrefix(key, b+".") || strings.HasPrefix(key, b+"#") {
+			for _, f := range fns {
+				r.ctx.noStage[f] = true
+			}
+			delete(r.ctx.stageBases, b)
+			hit = true
 		}
-		delete(r.ctx.stageBases, key)
+	}
+	if hit {
 		panic(restartAnalysis{})
 	}
 }
@@ -273,7 +283,7 @@ func (r *aeRun) posInd(key string, p int) int {
 		}
 	}
 	if o, ok := r.ctx.originOf[key]; ok && ti.kind == akOrder && isStringType(ti.t) {
-		if d := r.ctx.fieldDomain(o); d != nil && d.closed {
+		if d := r.ctx.fieldDomainFor(key, o); d != nil && d.closed {
 			for _, s := range d.allowed {
 				if poolIndex(r.ctx.pools[key], constant.MakeString(s)) < 0 {
 					panic(poolMiss{key, constant.MakeString(s)})
@@ -487,7 +497,18 @@ func (r *aeRun) binop(op token.Token, x, y any, t types.Type) any {
 		if _, ok := x.(avNil); ok {
 			return boolC(r.nilCmp(op, y))
 		}
-		if _, ok := x.(avIndex); ok && op == token.EQL {
+		if ix, ok := x.(avIndex); ok && (op == token.EQL || op == token.NEQ) {
+			// "first position or not": a position class shared by all individuals. The position-wise
+			// laws are checked in each class; a lexicographic order may use a different total
+			// preorder at different positions.
+			if cv, isC := y.(avConst); isC && r.ctx.allowFirst && ix.off == 0 && r.target != nil && cv.v.Kind() == constant.Int && constant.Sign(cv.v) == 0 {
+				key := "first:" + loopID(r.targetFn, r.target)
+				if _, known := r.ctx.terms[key]; !known {
+					r.ctx.terms[key] = &termInfo{kind: akBool, t: types.Typ[types.Bool]}
+				}
+				first := r.posInd(key, 0) == 1
+				return boolC(first == (op == token.EQL))
+			}
 			r.oof("loop index tested for equality")
 		}
 		if u, ok := x.(avUnknown); ok {
@@ -766,7 +787,9 @@ func (r *aeRun) exec(fr *frame, b *ssa.BasicBlock, pred *ssa.BasicBlock) any {
 			r.outcome = &iterOutcome{kind: "done"}
 			// continue into the tail: a min-kind loop decides absent positions after the loop
 			r.inIter = false
+			r.inTail = true
 			res := r.exec(fr, nb, np)
+			r.inTail = false
 			r.outcome = &iterOutcome{kind: "tail", val: res}
 			panic(returned{nil})
 		}
@@ -1034,6 +1057,21 @@ func (r *aeRun) evalInstr(fr *frame, v ssa.Value) any {
 		}
 		r.oof("element address of %T", base)
 	case *ssa.Index:
+		base := r.eval(fr, x.X)
+		idx := r.eval(fr, x.Index)
+		if ic, ok := idx.(avConst); ok && isStringType(x.X.Type()) {
+			k, _ := constant.Int64Val(constant.ToInt(ic.v))
+			switch b := base.(type) {
+			case avConst:
+				if sv := constant.StringVal(b.v); k >= 0 && int(k) < len(sv) {
+					return avConst{constant.MakeInt64(int64(sv[k]))}
+				}
+				r.oof("constant string index out of range")
+			case avTerm:
+				// the k-th byte of an unknown string: a value derived from the string
+				return r.mkTerm(fmt.Sprintf("%s[%d]", b.key, k), b.side, x.Type(), akOrder, []string{b.key})
+			}
+		}
 		r.oof("array value indexing")
 	case *ssa.Lookup:
 		return r.lookup(fr, x)
@@ -1158,6 +1196,24 @@ func (r *aeRun) elemAddr(seq avRef, idx any) avAddr {
 	case avConst:
 		nr := avRef{key: seq.key + "[" + i.v.ExactString() + "]", side: seq.side, t: et}
 		return avAddr{ref: &nr}
+	case avTerm:
+		// after a zip loop that stopped at the first position where one sequence S ended, len(S) is
+		// that position: x[len(S)] is the other sequence's element at the generic position
+		if r.inTail && strings.HasPrefix(i.key, "len(") {
+			short := strings.TrimSuffix(strings.TrimPrefix(i.key, "len("), ")")
+			spk, pk := "present:"+short, "present:"+seq.key
+			if r.ctx.terms[spk] != nil && r.ctx.terms[pk] != nil && r.posOf(spk, i.side) == 0 {
+				if r.posOf(pk, seq.side) != 1 {
+					// both sequences have ended at the generic position: this is not the first
+					// position past the shorter one, and the position laws ignore its outcome
+					r.inTail = false
+					r.outcome = &iterOutcome{kind: "tail", val: avUnknown{"tail past both sequences"}}
+					panic(returned{nil})
+				}
+				nr := avRef{key: seq.key + "[i]", side: seq.side, t: et}
+				return avAddr{ref: &nr}
+			}
+		}
 	}
 	r.oof("element index %T", idx)
 	return avAddr{}
@@ -1378,6 +1434,25 @@ func (r *aeRun) evalCall(fr *frame, c *ssa.Call) any {
 			return intC(int64(r.cmp3(ta, tb)))
 		}
 		r.oof("time comparison of unrelated values")
+	case "strings.EqualFold":
+		// EqualFold(a, b) holds exactly when the canonical case foldings of a and b are equal: each
+		// side's folding is a value derived from that side
+		fold := func(v any) any {
+			switch x := v.(type) {
+			case avConst:
+				if x.v.Kind() == constant.String {
+					return avConst{constant.MakeString(canonFold(constant.StringVal(x.v)))}
+				}
+			case avTerm:
+				return r.mkTerm("Fold("+x.key+")", x.side, types.Typ[types.String], akOrder, []string{x.key})
+			}
+			return nil
+		}
+		fa, fb := fold(args[0]), fold(args[1])
+		if fa == nil || fb == nil {
+			return avUnknown{"EqualFold of unmodelled operands"}
+		}
+		return boolC(r.cmp3o(fa, fb, false) == 0)
 	case "strconv.Atoi", "strconv.ParseInt", "strconv.ParseUint":
 		return r.derived("Atoi", args[:1], c.Type())
 	case "(*regexp.Regexp).MatchString":
@@ -1407,7 +1482,13 @@ func (r *aeRun) callRepo(fn *ssa.Function, args []any, site *ssa.Call) (res any)
 	if r.ctx.stageMode && r.depth >= 1 {
 		if ks, s0, ok := mirroredArgs(fn, args); ok && !r.ctx.noStage[fn] {
 			for _, k := range ks {
-				if r.ctx.directRead[k] {
+				direct := r.ctx.directRead[k]
+				for d := range r.ctx.directRead {
+					if strings.HasPrefix(d, k+".") || strings.HasPrefix(d, k+"#") {
+						direct = true
+					}
+				}
+				if direct {
 					// the caller also branches on this operand itself: a summarised relation would
 					// lose the connection between the two readings
 					r.ctx.noStage[fn] = true
@@ -1446,6 +1527,13 @@ func (r *aeRun) callRepo(fn *ssa.Function, args []any, site *ssa.Call) (res any)
 	if why, isOpaque := r.ctx.opaqueFns[fn]; isOpaque {
 		return r.opaqueCall(fn, args, why)
 	}
+	for _, a := range args {
+		if u, ok := a.(avUnknown); ok {
+			// the result of a call on a value without a model has no model either; the callee itself
+			// stays inlinable for its other call sites
+			return avUnknown{"call to " + fn.Name() + " with an unmodelled argument (" + u.why + ")"}
+		}
+	}
 	saved := r.snapshot()
 	defer func() {
 		if e := recover(); e != nil {
@@ -1457,7 +1545,8 @@ func (r *aeRun) callRepo(fn *ssa.Function, args []any, site *ssa.Call) (res any)
 				panic(e)
 			}
 			r.restore(saved)
-			// a callee is either always inlined or always opaque: restart with it marked opaque
+			// for given operands a callee is either always inlined or always opaque: restart with
+			// it marked opaque on these operands (other operands may still be evaluated inline)
 			r.ctx.opaqueFns[fn] = oof.why
 			panic(restartAnalysis{})
 		}
@@ -1471,7 +1560,7 @@ type runSnap struct {
 }
 
 func (r *aeRun) snapshot() runSnap { return runSnap{r.depth, r.inIter} }
-func (r *aeRun) restore(s runSnap)  { r.depth = s.depth; r.inIter = s.inIter }
+func (r *aeRun) restore(s runSnap) { r.depth = s.depth; r.inIter = s.inIter }
 
 func (r *aeRun) opaqueCall(fn *ssa.Function, args []any, why string) any {
 	// a stateless receiver (*Ecosystem with no fields) carries no information
@@ -1617,6 +1706,22 @@ func keySide(v any) (string, int) {
 var _ = sort.Strings
 
 // foldConst evaluates a few pure std functions on constant arguments (constant folding).
+// canonFold: the canonical representative of s under Unicode simple case folding (the smallest
+// rune of each rune's fold orbit), so that EqualFold(a, b) <=> canonFold(a) == canonFold(b).
+func canonFold(s string) string {
+	var sb strings.Builder
+	for _, ch := range s {
+		m := ch
+		for f := unicode.SimpleFold(ch); f != ch; f = unicode.SimpleFold(f) {
+			if f < m {
+				m = f
+			}
+		}
+		sb.WriteRune(m)
+	}
+	return sb.String()
+}
+
 func foldConst(name string, args []any) (any, bool) {
 	if args == nil {
 		// query: is this function folded at all
